@@ -606,6 +606,13 @@ fn add_contradiction(r: &mut Rng, p: &mut Program, binary: bool) -> bool {
         }
         // the contradicting row is ended explicitly; everything after it is never reached
         ru.last_row_ended = true;
+        // half of the time the shim reports the failed call to the client (finish_error)
+        // instead of propagating it
+        if r.coin() && !matches!(ru.contra, Some(Contra::TooManyCols { .. })) {
+            // (a row with one cell too many is complete without the refused extra cell, so
+            // what a recovering shim owes the client is not fixed by the property)
+            ru.recover = Some((gen_errkind(r), gen_errmsg(r)));
+        }
     }
     true
 }
@@ -760,6 +767,7 @@ fn gen_c05(r: &mut Rng, t: Tier, job: u64) -> Plan {
             last_row_ended: true,
             close: Close::Finish,
             contra: None,
+            recover: None,
         };
         let pos = r.usize_below(cmds.len() + 1).min(cmds.iter().position(|c| matches!(c.kind, CmdKind::Quit)).unwrap_or(cmds.len()));
         cmds.insert(
@@ -791,6 +799,7 @@ fn gen_c05(r: &mut Rng, t: Tier, job: u64) -> Plan {
             last_row_ended: true,
             close: Close::Finish,
             contra: None,
+            recover: None,
         };
         cmds.insert(
             0,
